@@ -105,6 +105,18 @@ def parseUBIn (ts : List String) : Option (Solver.UBIn Float × List String) :=
     some ({ UB := ⟨u0,u1,u2,u3,u4,u5,u6,u7,u8⟩, B := ⟨b0,b1,b2,b3,b4,b5,b6,b7,b8⟩, n_phi := ⟨n0,n1,n2⟩, surf_nphi := ⟨s0,s1,s2⟩ }, ts.drop 24)
   | _ => none
 
+partial def parseStored : List String → Option (List (CalcUB.Stored Float) × List (CalcUB.Stored Float))
+  | [] => some ([], [])
+  | "R" :: t :: r =>
+    match parseFloats (r.take 9), parseStored (r.drop 9) with
+    | some [h, k, l, mu, de, nu, et, ch, ph], some (rs, os) => some (⟨parseTag t, .refl ⟨h, k, l⟩ mu de nu et ch ph⟩ :: rs, os)
+    | _, _ => none
+  | "O" :: t :: r =>
+    match parseFloats (r.take 12), parseStored (r.drop 12) with
+    | some [h, k, l, x, y, z, mu, de, nu, et, ch, ph], some (rs, os) => some (rs, ⟨parseTag t, .orient ⟨h, k, l⟩ ⟨x, y, z⟩ mu de nu et ch ph⟩ :: os)
+    | _, _ => none
+  | _ => none
+
 def parseArg : List String → Option (Arg Float × List String)
   | "none" :: r => some (.none, r)
   | "false" :: r => some (.fals, r)
@@ -216,6 +228,30 @@ def step (st : DState) (line : String) : DState × String :=
         | .error e => (st, showPErr e)
       | _ => (st, "bad-op")
     | none => (st, "bad-op")
+  | "calcub" :: rest =>
+    -- calcub B(9) i1 i2 {R tag h k l mu de nu et ch ph | O tag h k l x y z mu de nu et ch ph}...
+    match parseFloats (rest.take 9), rest.drop 9 with
+    | some [b0,b1,b2,b3,b4,b5,b6,b7,b8], i1 :: i2 :: recs =>
+      let pIdx (s : String) : Option (Option Idx) := if s == "-" then some none else (parseIdx s).map some
+      match pIdx i1, pIdx i2, parseStored recs with
+      | some i1, some i2, some (rs, os) =>
+        match CalcUB.calcUb ⟨b0,b1,b2,b3,b4,b5,b6,b7,b8⟩ rs os i1 i2 with
+        | .ok U => (st, "ok " ++ showM3 U)
+        | .error e => (st, showPErr e)
+      | _, _, _ => (st, "bad-op")
+    | _, _ => (st, "bad-op")
+  | "polar.fwd" :: rest =>
+    match parseFloats rest with
+    | some [u0,u1,u2,u3,u4,u5,u6,u7,u8, h, k, l, pol, az] =>
+      (st, showV3 (Polar.hklFromPolar ⟨u0,u1,u2,u3,u4,u5,u6,u7,u8⟩ ⟨h, k, l⟩ pol az))
+    | _ => (st, "bad-op")
+  | "polar.inv" :: rest =>
+    match parseFloats rest with
+    | some [u0,u1,u2,u3,u4,u5,u6,u7,u8, b0,b1,b2,b3,b4,b5,b6,b7,b8, oh, ok, ol, rh, rk, rl] =>
+      match Polar.polarFromHkl ⟨u0,u1,u2,u3,u4,u5,u6,u7,u8⟩ ⟨b0,b1,b2,b3,b4,b5,b6,b7,b8⟩ ⟨oh, ok, ol⟩ ⟨rh, rk, rl⟩ with
+      | .ok (pol, az, sc) => (st, s!"ok {showFloat pol} {showOptF az} {showFloat sc}")
+      | .error e => (st, showPErr e)
+    | _ => (st, "bad-op")
   | "cryst.B" :: rest =>
     match parseFloats rest with
     | some [a1, a2, a3, l1, l2, l3] => (st, showM3 (Gen.reciprocalB a1 a2 a3 l1 l2 l3))
